@@ -365,9 +365,9 @@ pub open spec fn launched_one(t0: Trace, t1: Trace, j: JoinHandle<()>, h: Target
         /*[C08.launch-wiring]*/ r matches Ok((j, h)) ==> final(tr).launched.last().helper_meta == target.meta(),
         /*[C08.launch-wiring]*/ r matches Ok((j, h)) ==> final(tr).launched.last().kind == target.kind_no(),
         /*[C08.launch-wiring,C01.relay]*/ r matches Ok((j, h)) ==> final(tr).launched.last().inbox == h.target_actor_input_sender.chan(),
-        /*[C08.launch-wiring,C10.terminate-all]*/ r matches Ok((j, h)) ==> final(tr).launched.last().term == h.termination_sender.chan(),
+        /*[C08.launch-wiring,C10.terminate-all,C11.stop-at-exit]*/ r matches Ok((j, h)) ==> final(tr).launched.last().term == h.termination_sender.chan(),
         /*[C08.launch-wiring]*/ r matches Ok((j, h)) ==> final(tr).launched.last().out == target_actor_output_sender.chan(),
-        /*[C08.launch-wiring,C10.terminate-all]*/ r matches Ok((j, h)) ==> final(tr).launched.last().task == j.task(),
+        /*[C08.launch-wiring,C10.terminate-all,C11.stop-at-exit]*/ r matches Ok((j, h)) ==> final(tr).launched.last().task == j.task(),
         /*[C04.nonblocking,C10.signal]*/ r matches Ok((j, h)) ==> !h.target_actor_input_sender.bounded(),
         /*[C08.no-inval-oneshot]*/ r matches Ok((j, h)) ==> (watch_option is Disabled ==> h._watcher is None && final(tr).watchers == old(tr).watchers),
         /*[C06.watch-inputs]*/ r matches Ok((j, h)) ==> (watch_option is Enabled ==> (h._watcher is Some <==> !(target is Aggregate))),
@@ -435,7 +435,7 @@ impl TargetActors {
     ensures
         final(self).same_config(old(self)),
         r is Ok ==> final(self).wf(*final(tr)),
-        /*[C10.terminate-all]*/ final(self).wf_handles(*final(tr)),
+        /*[C10.terminate-all,C11.stop-at-exit]*/ final(self).wf_handles(*final(tr)),
         r matches Ok(h) ==> final(self).target_actor_handles@.contains_key(*target_id) && *h == final(self).target_actor_handles@[*target_id],
         /*[C08.launch-once]*/ old(self).target_actor_handles@.contains_key(*target_id) ==> *final(tr) == *old(tr) && final(self).target_actor_handles == old(self).target_actor_handles && r is Ok,
         /*[C08.launch-once]*/ !old(self).target_actor_handles@.contains_key(*target_id) && r is Ok ==> final(tr).launched.len() == old(tr).launched.len() + 1 && final(tr).launched.last().id == *target_id,
@@ -499,8 +499,8 @@ impl TargetActors {
         self.wf_handles(*old(tr)),
     ensures
         final(tr).launched == old(tr).launched,
-        /*[C10.terminate-all]*/ forall|i: int| #![trigger final(tr).launched[i]] 0 <= i < final(tr).launched.len() ==> final(tr).term_sent.contains(final(tr).launched[i].task),
-        /*[C10.terminate-all]*/ forall|i: int| #![trigger final(tr).launched[i]] 0 <= i < final(tr).launched.len() ==> final(tr).joined.contains(final(tr).launched[i].task),
+        /*[C10.terminate-all,C11.stop-at-exit]*/ forall|i: int| #![trigger final(tr).launched[i]] 0 <= i < final(tr).launched.len() ==> final(tr).term_sent.contains(final(tr).launched[i].task),
+        /*[C10.terminate-all,C11.stop-at-exit]*/ forall|i: int| #![trigger final(tr).launched[i]] 0 <= i < final(tr).launched.len() ==> final(tr).joined.contains(final(tr).launched[i].task),
 //@pre
         broadcast use group_keys;
         broadcast use vstd::std_specs::hash::group_hash_axioms;
@@ -523,7 +523,7 @@ impl TargetActors {
         forall|id: TargetId| #![trigger target_actor_handles@[id]] target_actor_handles@.contains_key(id) ==> old(tr).term_of.contains_key(target_actor_handles@[id].termination_sender.chan()),
     ensures
         *final(tr) == (Trace { term_sent: final(tr).term_sent, ..*old(tr) }),
-        /*[C10.terminate-all]*/ forall|id: TargetId| #![trigger target_actor_handles@[id]] target_actor_handles@.contains_key(id) ==> final(tr).term_sent.contains(old(tr).term_of[target_actor_handles@[id].termination_sender.chan()]),
+        /*[C10.terminate-all,C11.stop-at-exit]*/ forall|id: TargetId| #![trigger target_actor_handles@[id]] target_actor_handles@.contains_key(id) ==> final(tr).term_sent.contains(old(tr).term_of[target_actor_handles@[id].termination_sender.chan()]),
 //@pre
         broadcast use group_keys;
         broadcast use vstd::std_specs::hash::group_hash_axioms;
